@@ -118,6 +118,7 @@ def run(ck: Check) -> None:
             if len(ck.mismatches) < 10:
                 ck.mismatches.append({"corr": "corr:entry-classes/model-vs-oracle", "line": ln[:1500], "impl": "oracle counts " + ",".join(sorted(counted_oracle))[:300],
                                       "model": ans[:300], "tag": "gpg" if gpg else "raw", "meta": {"states": c["states"]}, "stdout_encoding": "utf-8"})
+    io_lines, io_meta = [], []
     # the same envelopes when the diagnostics cannot be printed (stdout full, a broken pipe, closed, absent): whatever the library then does with the
     # failed print, it may not accept what it otherwise rejects
     from .. import impl
@@ -129,11 +130,31 @@ def run(ck: Check) -> None:
             ck.evaluations += 1
             ck.oracle_checks += 1
             ck.count("stdout-" + mode + ":" + out[:14])
+            if envgen.well_typed(case.args[0], case.args[1], 1) and isinstance(case.args[3], bool):
+                io_lines.append("vsignableio " + ("absent" if mode == "broken:none" else "failing") + " " + " ".join(proto.enc(a) for a in case.args))
+                io_meta.append((mode, out, case))
             if out == "OK":
                 ck.violation("accepted without threshold-many valid authorized signers when the diagnostics could not be printed",
                              {"request": case.op + " " + proto.enc(case.args[0])[:1500], "authorized": case.args[1], "threshold": case.meta["thr"], "mode": case.tag,
                               "stdout": mode, "oracle_count": case.meta["count"], "entry_states": case.meta["states"]}, "unsound-broken-stdout:" + case.tag)
                 break
+    # ... and against the model of the call under such a standard output (Model/Diagnostics.lean: verifySignableUnder; theorems sound_under_any_stdout,
+    # failing_stdout_outcomes): the implementation's outcome is the model's under that state (the failed print: OSError, or ValueError for a closed file
+    # object) or — a tool that reports elsewhere is as good — the call's ordinary outcome
+    ck.correspondences.add("corr:verify_signable/outcome-under-stdout-states")
+    normal_lines = ["vsignable " + ln.split(" ", 2)[2] for ln in io_lines]
+    for (mode, out, case), m_io, m_norm, ln in zip(io_meta, ck.driver.run(io_lines, [m[2].group for m in io_meta]), ck.driver.run(normal_lines, [m[2].group for m in io_meta]), io_lines):
+        ck.evaluations += 1
+        allowed = {m_norm, m_io}
+        if m_io == "E OSError":
+            allowed |= {"E ArgError"} if mode == "broken:closed" else set()
+        ck.count("model-under-stdout:" + m_io[:12])
+        if out not in allowed:
+            ck.mismatch_total += 1
+            kk = f"verify_signable-under-{mode}:impl={out[:20]}:model={m_io[:20]}"
+            ck.mismatch_kinds[kk] = ck.mismatch_kinds.get(kk, 0) + 1
+            if len(ck.mismatches) < 10:
+                ck.mismatches.append({"corr": "corr:verify_signable/outcome-under-stdout-states", "line": ln[:1500], "impl": out, "model": m_io + " (ordinary: " + m_norm + ")", "tag": mode, "meta": {}, "stdout_encoding": mode})
     # soundness of what is built on it: delegation and root verification accept only with the trusted rule met
     rng = ck.rng
     dcases = []
